@@ -175,6 +175,14 @@ def apply_op(sim, mon, op, ctx=None):
         sim.step_no += 1
         n = w.StorageNode.get(name=node)
         p = pathlib.Path(n.root, rel)
+        if what == "finish-write":
+            # a writer that follows the lock protocol completes its file and removes the lock: not tampering
+            with daemon._real["builtins.open"](p, "ab") as fh:
+                fh.write(b"-and the rest of the data")
+            lock = p.with_name("." + p.name + ".lock")
+            if lock.exists():
+                daemon._real.get("unlink", os.unlink)(lock)
+            return None
         sim.tainted.add((node, rel))
         if what == "remove":
             if p.exists():
